@@ -82,7 +82,7 @@ func (h *Handler) spoofLoop(addr packet.Addr) {
 	nTimes := 0
 	for {
 		h.arpMutex.Lock()
-		targetAddr, hunting := h.findHuntByIP(addr.IP)
+		targetAddr, hunting := h.huntList[string(addr.MAC)] // the list is keyed by mac: another hunted station may hold the same IP
 		closed := h.closed
 		h.arpMutex.Unlock()
 
